@@ -858,7 +858,7 @@ def c16_plan(pid, tier, seed, t0):
         jobs.append(("handoff", [conc, "handoff", str([4, 8, 16][k % 3]), str(300 if tier == "quick" else 3000), str(seed * 37 + k)]))
     for k in range(6 if tier == "quick" else 150):
         jobs.append(("crowd", [conc, "crowd", str([8, 16, 4][k % 3]), str(40 if tier == "quick" else 300), str(seed * 41 + k)]))
-    for k in range(4 if tier == "quick" else 60):
+    for k in range(4 if tier == "quick" else 12):
         jobs.append(("hammer", [conc, "hammer", str([8, 32, 16, 24][k % 4]), str(600 if tier == "quick" else 2500), str(seed * 43 + k)]))
     first_runs = 200 if tier == "quick" else 10000
     for k in range(first_runs):
